@@ -185,6 +185,7 @@ class C21(Property):
     level_note = ("Lean kernel, axioms within {propext, Classical.choice, Quot.sound}; hand-written model tied to the code by the "
                   "correspondence check")
     assumptions = ["paths are normalised absolute POSIX paths; one location name per deployment"]
+    quick_budget_s = 480          # generous: the machine may be heavily loaded
     min_nontrivial = 30
 
     def _fail(self, ctx: Ctx, key, detail, replay):
@@ -330,9 +331,11 @@ class C21(Property):
         n = 400 if ctx.tier == "quick" else 5000
         if ctx.mode == "search":
             n *= 3
-        for _ in range(n):
+        for k in range(n):
             if ctx.out_of_time():
-                ctx.extra["incomplete"] = True
+                ctx.extra["histories_run"] = k
+                if k < 100:
+                    ctx.extra["incomplete"] = True
                 break
             nloc = rng.randint(1, 3)
             wrapped = nloc == 3 and rng.random() < 0.5
